@@ -213,6 +213,17 @@ def _check_duration_definition(prog: Program, res: Result):
                 break
         return txt
 
+    # every monthly quantity read or written inside the loop belongs to the loop's own month
+    bad_idx = []
+    n_sub = 0
+    for n_ in ast.walk(loops[0]):
+        if isinstance(n_, ast.Subscript) and (attr_chain(n_.value) or "").startswith(("self.monthly_", "self.two_day_hourly_peak_")) and not isinstance(n_.slice, ast.Slice):
+            n_sub += 1
+            if ast.unparse(n_.slice) != iv:
+                bad_idx.append(n_)
+    res.ob("R07.7", f"find_peak_durations: all {n_sub} reads / writes of monthly arrays and two-day profiles in the month loop use the loop's own month index", not bad_idx and n_sub >= 8, prog.loc(fi, loops[0]))
+    for n_ in bad_idx[:2]:
+        res.violation("R07.7", f"month-index|{ast.unparse(n_)[:60]}", prog.loc(fi, n_), q, f"'{ast.unparse(n_)[:80]}' reads another month's value inside the loop over month {iv}: the duration of month {iv} is computed from a neighbour's peak / average / profile")
     for c, tag in zip(calls, ("cl", "hl")):
         b = bind_args(pcs, c)
         used = set()
@@ -721,6 +732,19 @@ def _check_peak_provenance(prog: Program, res: Result):
                     and num.func.attr == "index" and isinstance(num.func.value, ast.Name) and win.get(num.func.value.id) == series
                     and len(num.args) == 1 and ast.unparse(num.args[0]) == f"{pk}[{iv}]"):
                 okd = True
+        # the monthly average (what the duration's step load is measured against) = the month's total / hours of its window
+        sa = assigns.get(f"self.monthly_avg_{tag}")
+        tot = f"self.monthly_{tag}"
+        oka = False
+        if sa is not None:
+            va = inline_single_defs(fi.node, sa.value, keep=set(win))
+            if isinstance(va, ast.BinOp) and isinstance(va.op, ast.Div) and ast.unparse(va.left) == f"{tot}[{iv}]" and isinstance(va.right, ast.Call) \
+                    and attr_chain(va.right.func) == "len" and len(va.right.args) == 1 and isinstance(va.right.args[0], ast.Name) and win.get(va.right.args[0].id) == series:
+                oka = True
+        res.ob("R07.6", f"monthly_avg_{tag}[i] = monthly_{tag}[i] / len(month window of {series.split('.')[-1]})", oka, prog.loc(fi, sa) if sa is not None else prog.loc(fi, loop))
+        if not oka:
+            res.violation("R07.6", f"avg:{tag}", prog.loc(fi, sa) if sa is not None else prog.loc(fi, loop), q,
+                          f"monthly_avg_{tag}[i] is not the month's total divided by the hours of its own window: {norm_stmt(sa) if sa is not None else 'not assigned'} (the peak duration is defined against this average)")
         res.ob("R07.6", f"{dy.split('.')[-1]}[i] = floor(window.index(peak) / 24) on the same window", okd, prog.loc(fi, sd))
         if not okd:
             res.violation("R07.6", f"day:{tag}", prog.loc(fi, sd), q,
